@@ -42,7 +42,6 @@ C07 = {
 C06 = {
     "IPv4": "IPv4: option padding bytes are kept in Padding but not re-emitted (DESIGN §5 C07 expected, per-layer engine); :Truncated — consequence of the TLS ClientHello over-read (all:c02:reads-beyond-len:TLS): the in-place decode is clean only because TLS reads beyond its slice, the exact-size re-decode is truncated",
     "TCP": "TCP :Truncated — consequence of the TLS ClientHello over-read (all:c02:reads-beyond-len:TLS): the payload decodes cleanly in place only because TLS reads beyond its slice; re-decoded from exact-size bytes it is truncated",
-    "RADIUS": "RADIUS.SerializeTo with FixLengths writes each attribute length as len(Value) instead of len(Value)+2 (type and length bytes not counted), so the re-decode fails",
     "DNS": "DNS: records with empty RDATA come back with a zero address (nil IP serialised as 0.0.0.0 / ::), OPT/TXT variants are re-encoded differently",
     "Dot11": "Dot11: SerializeTo always writes a 24-byte header + FCS while the decoder uses 10/16/24/30-byte headers depending on type and flags; QOS/HT control and the checksum are not written back",
     "Dot11InformationElement": "Dot11InformationElement: ID 255 (extension) elements lose the extension id on serialisation",
